@@ -51,7 +51,7 @@ class StepIndexFiber(AgnosticOpticalElement):
         The 2D position of the fiber in the optical plane.
     '''
     def __init__(self, core_radius, NA, fiber_length, position=None):
-        super().__init__(False, True)
+        super().__init__(True, True)
 
         self._core_radius = core_radius
         self._NA = NA
